@@ -306,6 +306,26 @@ pub fn c18(ctx: &mut Ctx) {
             let t = nested_text(depth);
             judge_cli(ctx, "deep-rule", kind, vec![t.clone(), "null".into()], None, Some((&t, "null")), true);
             judge_cli(ctx, "deep-data-stdin", kind, vec![r#"{"var":""}"#.into()], Some(&t), Some((r#"{"var":""}"#, &t)), true);
+            // results nested one or two levels deeper than their input (what is printed is never re-read)
+            let to = format!("{}1{}", r#"{"k":"#.repeat(depth), "}".repeat(depth));
+            for r in [r#"{"merge":[{"var":""}]}"#, r#"{"map":[[1],{"merge":[{"var":"d"}]}]}"#, r#"{"if":[true,[[{"var":""}]]]}"#, r#"{"filter":[[{"var":""}],true]}"#] {
+                for d in [&t, &to] {
+                    judge_cli(ctx, "deep-result", kind, vec![r.to_string(), d.to_string()], None, Some((r, d)), true);
+                    judge_cli(ctx, "deep-result:stdin", kind, vec![r.to_string()], Some(d), Some((r, d)), true);
+                }
+            }
+        }
+        // data arguments that are almost the stdin marker, with VALID JSON waiting on stdin: only the exact
+        // text "-" (and an omitted argument) means "read stdin"; everything else is the data text itself
+        for d in [" -", "- ", "\t-", " - ", "-\n", "- -", "", " ", "-0", "\"-\"", "[\"-\"]"] {
+            if !ctx.mine() {
+                continue;
+            }
+            for r in [r#"{"var":""}"#, r#"{"var":"a"}"#, "1"] {
+                ctx.edge();
+                judge_cli(ctx, "almost-stdin-marker:valid-stdin", kind, vec![r.to_string(), d.to_string()], Some(r#"{"a":5}"#), Some((r, d)), true);
+                judge_cli(ctx, "almost-stdin-marker:double-dash", kind, vec!["--".to_string(), r.to_string(), d.to_string()], Some(r#"{"a":5}"#), Some((r, d)), true);
+            }
         }
         // chaining: jsonlogic r2 < <(jsonlogic r1 d)
         let valid_rules: Vec<&str> = rules.iter().filter(|r| serde_json::from_str::<Value>(r).is_ok() && !r.contains("log")).cloned().collect();
